@@ -27,10 +27,10 @@ m = {
     "version": 1,
     "setup_cmd": SETUP,
     "hooks": {
-        "guard": "none (out-of-tree harness crate /verif/harness with a path dependency on /repo; cfg(kani) exists only there)",
-        "enable": "cargo kani in /verif/harness compiles /repo's working tree as a path dependency; no source hooks in /repo",
+        "guard": "cfg(kani) (set by the Kani compiler for every crate it builds; never set by cargo build/test)",
+        "enable": "cargo kani in /verif/harness compiles /repo's working tree as a path dependency with --cfg kani; hooks: pset::verif_hooks (accessors for the crate-private map merge functions) and blech32::decode::CheckedHrpstring::verif_from_parts (constructor from split parts)",
         "baseline_off_cmd": "cd /repo && cargo test --workspace --no-fail-fast --offline",
-        "source_commits": [],
+        "source_commits": ["cb5a50d", "2524795"],
         "add_only": True,
     },
     "engines": [
